@@ -333,11 +333,12 @@ fn xdr_string(len: usize) {
     assert!(buf.len() == 1 + 4 + padded, "C16: XDR string is not length word + bytes padded to a multiple of 4");
     assert!(be32(&buf[1..5]) as usize == len, "C16: XDR string length word");
     let j: usize = kani::any();
-    kani::assume(j < padded);
-    if j < len {
-        assert!(buf[5 + j] == content[j], "C16: XDR string bytes altered");
-    } else {
-        assert!(buf[5 + j] == 0, "C16: XDR padding is not zero");
+    if j < padded {
+        if j < len {
+            assert!(buf[5 + j] == content[j], "C16: XDR string bytes altered");
+        } else {
+            assert!(buf[5 + j] == 0, "C16: XDR padding is not zero");
+        }
     }
     kani::cover!(true, "string encoded");
 }
